@@ -394,7 +394,6 @@ func (p *Prog) fieldByCanonical(name string) types.Object {
 	return found
 }
 
-
 // ---------- R-RES/served: a brokered listener is closed when AcceptAndServe returns ----------
 
 func ruleAcceptAndServeCloses(c *Ctx) {
